@@ -78,6 +78,14 @@ Shape(name) ==
           objs |-> {Roa(1, 1, <<0>>, 1), Roa(2, 1, <<0,0>>, 1), Roa(3, 1, <<0,1>>, 1), Roa(4, 1, <<1>>, 1),
                     Roa(5, 1, <<1,1>>, 2)},
           tals |-> <<1>>]
+    [] name = "halves" ->
+         \* TA with ROAs of its own; CA2 and CA3 hold the two halves of the space, CA4 all of it:
+         \* for the unsafe-VRP filter when several publication points are rejected in one run
+         \* (the resources of CA2 and CA3 add up to the whole space; CA4's whole-space block is skipped)
+         [cas  |-> <<Ca(0, 1, 1, {<<>>}), Ca(1, 2, 2, {<<0>>}), Ca(1, 3, 3, {<<1>>}), Ca(1, 4, 2, {<<>>})>>,
+          objs |-> {Roa(1, 1, <<0,1>>, 1), Roa(1, 2, <<1,0>>, 2), Roa(2, 1, <<0,0>>, 1), Roa(3, 1, <<1,1>>, 2),
+                    Roa(4, 1, <<1>>, 1)},
+          tals |-> <<1>>]
     [] name = "loop" ->
          \* CA3 issues a certificate for the TA's key (CA4) and one for its own parent's key (CA5)
          [cas  |-> <<Ca(0, 1, 1, {<<>>}), Ca(1, 2, 1, {<<0>>, <<1>>}), Ca(2, 3, 1, {<<0>>}), Ca(3, 1, 1, {<<0>>}),
@@ -130,7 +138,9 @@ KindsFor(site) == CASE site[1] = "cert" ->
                     [] site[1] = "obj"  ->
                          IF HoldsAll(W.cas[site[2]].res) THEN ObjFaults \ {"Overclaim"} ELSE ObjFaults
 
-AllFaults == UNION {{<<s, k>> : k \in KindsFor(s)} : s \in Sites}
+(* Instances may restrict the faults considered (definition override).     *)
+KindOk(site, k) == TRUE
+AllFaults == UNION {{<<s, k>> : k \in {x \in KindsFor(s) : KindOk(s, x)}} : s \in Sites}
 FaultSets == {{}} \cup {{f} : f \in AllFaults}
              \cup (IF MaxFaults >= 2
                      THEN {{f, g} : f \in AllFaults, g \in AllFaults} \ {fs \in {{f, g} : f \in AllFaults, g \in AllFaults} :
